@@ -46,7 +46,7 @@ TRUSTED = [
     "argument; the correspondence runs an exact round-half-even (Model/OrientCheck.v q_around) and accepts one unit of difference",
 ]
 ASSUMPTIONS = [
-    "validated molecules: total mass non-zero (all masses positive); 1-12 atoms",
+    "validated molecules: total mass positive (every mass positive, except massless dummy atoms 'X' next to at least one massive atom); 1-12 atoms",
     "call histories: groups of 2-6 molecules sharing symbols + bit-identical geometry (other isotopes / explicit masses / ghosts / frame "
     "flags / geometry_noise), or symbols + masses (one atom displaced), or geometry (one element replaced), are oriented back to back "
     "in one interpreter in both orders and each judged on its own (oracle only); so are copy(update=...) of an already oriented-from "
@@ -423,6 +423,8 @@ def oracle(case):
                     mol.get_fragment(real_, ghost_)
             except Exception:
                 continue        # charge / multiplicity of this fragment cannot be settled: nothing to orient (not this property's business)
+            if not w[idx].sum() > 0:
+                continue        # only massless dummy atoms: no centre of mass (outside the stated assumption: total mass positive)
             try:
                 fm = mol.get_fragment(real_, ghost_, orient=True)
             except Exception as e:
@@ -498,6 +500,14 @@ def oracle(case):
         for ax in range(3):
             c1, c3 = g1[:, ax], g3[:, ax]
             tiny = np.abs(c1).max() < 3e-8
+            # The sign of a column is settled by its first coordinate with |x| >= 1e-8. When that coordinate is, in the first or in the
+            # second orientation, no larger than the accuracy utol to which this very molecule's coordinates are reproduced (the rounding /
+            # zero flip amplified by the conditioning of its eigenvectors), the perturbation may carry it through zero: the sign of the
+            # column is not determined at the accuracy claimed, and the column is compared up to sign (everything else as before); counted.
+            dec = [next((float(v) for v in col if abs(v) >= NOISE), None) for col in (raw[:, ax], raw2[:, ax])]
+            if not tiny and any(d is not None and abs(d) <= utol for d in dec) and np.abs(c1 - c3).max() > utol and np.abs(c1 + c3).max() <= utol:
+                obs["twice_sign_undetermined_axes"] = obs.get("twice_sign_undetermined_axes", 0) + 1
+                continue
             if not tiny and np.abs(c1 - c3).max() > utol:
                 bad("orienting twice changes the geometry", {"axis": ax, "once": c1.tolist(), "twice": c3.tolist(),
                                                              "raw": raw[:, ax].tolist(), "raw2": raw2[:, ax].tolist(), "utol": utol})
@@ -550,6 +560,30 @@ CHK_TY = {
 DENS = [1, 1, 2, 4, 5, 8, 10]
 ISOTOPES = {"H": [1, 2, 3], "He": [3, 4], "C": [12, 13, 14], "N": [14, 15], "O": [16, 17, 18], "F": [19], "S": [32, 34], "Cl": [35, 37],
             "Li": [6, 7], "Br": [79, 81], "Fe": [54, 56]}
+
+
+DUMMY = "X"       # a dummy atom: Z = 0, mass 0.0 (mass number 0), accepted by validation next to ordinary atoms
+
+
+def isotopes_of(s):
+    return [0] if s == DUMMY else ISOTOPES[s]
+
+
+def explicit_mass(rng, s, offs=(0, 0.125, -0.125, 0.25)):
+    """an explicit mass validation accepts for element s: close to one of its isotopes; exactly 0.0 for a dummy atom"""
+    return 0.0 if s == DUMMY else round(ISOTOPES[s][0] * rng.choice([1.0, 1.01, 0.99]) + rng.choice(list(offs)), 3)
+
+
+def with_dummies(rng, syms, min_massive=1):
+    """the symbols with 1-3 atoms replaced by massless dummy atoms 'X'; at least min_massive >= 1 massive atoms stay (the total mass
+    stays positive)"""
+    keep = [k for k, e in enumerate(syms) if e != DUMMY]
+    if len(keep) - min_massive < 1:
+        return list(syms)
+    out = list(syms)
+    for k in rng.sample(keep, rng.randint(1, min(3, len(keep) - min_massive))):
+        out[k] = DUMMY
+    return out
 
 
 def rnd_coord(rng, lim=5):
@@ -667,13 +701,19 @@ def rnd_molecule(rng, shape):
         massn = None
     else:
         syms = [rng.choice(list(ISOTOPES)) for _ in range(n)]
-        massn = [rng.choice(ISOTOPES[s]) for s in syms] if rng.random() < 0.5 else None
+        if n >= 2 and shape != "nearplanar" and rng.random() < 0.2:
+            # massless dummy atoms next to massive ones: weights that are zero for some atoms, through every entry point
+            # (not in the nearly planar shape: the constructor's zero flip changes those inputs, and when the only atoms it leaves off the
+            # plane are massless the stored molecule is exactly planar in its massive atoms while the caller's numbers are not - the two
+            # routes then settle the sign of that axis on different atoms, the known finding C16-phase-flush-zone in another guise)
+            syms = with_dummies(rng, syms)
+        massn = [rng.choice(isotopes_of(s)) for s in syms] if rng.random() < 0.5 else None
     case = {"symbols": syms, "geom": [[fr_s(c) for c in p] for p in P], "shape": shape}
     if massn:
         case["mass_numbers"] = massn
     elif shape not in ("symtop", "sphtop", "flushzone") and rng.random() < 0.3:
         # explicit masses must lie within 0.5 of the element's isotope range to be accepted; stay close to an isotope
-        case["masses"] = [round(ISOTOPES[s][0] * rng.choice([1.0, 1.01, 0.99]) + rng.choice([0, 0.125, -0.125, 0.25]), 3) for s in syms]
+        case["masses"] = [explicit_mass(rng, s) for s in syms]
     if rng.random() < 0.3 and n > 1 and shape not in ("symtop", "sphtop", "flushzone"):
         real = [rng.random() < 0.7 for _ in range(n)]
         if not any(real):
@@ -706,8 +746,8 @@ def rnd_molecule(rng, shape):
 def other_isotopes(rng, syms):
     """mass numbers differing from the default isotope on at least one atom (None if every element here has a single isotope)"""
     for _ in range(20):
-        mn = [rng.choice(ISOTOPES[s]) for s in syms]
-        if any(a != ISOTOPES[s][0] if s not in ("H", "He", "Li", "Br", "Fe") else a != {"H": 1, "He": 4, "Li": 7, "Br": 79, "Fe": 56}[s]
+        mn = [rng.choice(isotopes_of(s)) for s in syms]
+        if any(a != isotopes_of(s)[0] if s not in ("H", "He", "Li", "Br", "Fe") else a != {"H": 1, "He": 4, "Li": 7, "Br": 79, "Fe": 56}[s]
                for a, s in zip(mn, syms)):
             return mn
     return None
@@ -731,7 +771,7 @@ def rnd_history(rng):
     if mn2 and mn2 != mn:
         pool.append({"label": "other isotopes (2)", "mass_numbers": mn2})
     pool.append({"label": "explicit masses",
-                 "masses": [round(ISOTOPES[s][0] * rng.choice([1.0, 1.01, 0.99]) + rng.choice([0.125, -0.125, 0.25, 0.375]), 3) for s in syms]})
+                 "masses": [explicit_mass(rng, s, (0.125, -0.125, 0.25, 0.375)) for s in syms]})
     if n > 1:
         real = [rng.random() < 0.6 for _ in range(n)]
         real[rng.randrange(n)] = True
@@ -754,6 +794,12 @@ def rnd_history(rng):
     b = rng.randrange(n)
     s2[b] = rng.choice([e for e in ISOTOPES if e != syms[b]])
     pool.append({"label": "one element replaced", "symbols": s2})
+    # same geometry, some atoms turned into massless dummy atoms (another mass vector with zeros in it)
+    s3 = with_dummies(rng, syms)
+    if s3 != list(syms):
+        pool.append({"label": "dummy atoms", "symbols": s3})
+        if rng.random() < 0.5:
+            pool.append({"label": "dummy atoms, masses spelled out", "symbols": s3, "masses": [explicit_mass(rng, e) for e in s3]})
     k = rng.randint(2, min(5, len(pool)))
     steps = rng.sample(pool, k)
     if rng.random() < 0.4:
@@ -803,6 +849,19 @@ def gen_cases(ctx):
                             "fragments": [[0, 1, 2], [3]], "fragment_charges": [0.0, 0.0],
                             "provenance": {"creator": "c16-probe", "version": "1.0", "routine": "corpus"}},
                   "flags": {"fix_symmetry": "c1"}, "motion": {"q": [1, -2, 1, 2], "t": ["1", "-1/2", "3"]}})
+    # massless dummy atoms 'X' (Z = 0, mass 0.0) next to massive ones: the weights of the centre of mass and of the tensor contain zeros;
+    # a dummy far from the centre of mass, a ghosted one, one with its zero mass spelled out, one as a fragment of its own
+    cases.append({"stream": "corpus", "shape": "asym", "symbols": ["C", "O", "H", "H", "X"],
+                  "geom": z(("1/10", "1/5", "-3/10"), ("23/10", "2/5", "-1/10"), ("-9/10", "19/10", "-1/2"), ("-1", "-8/5", "3/10"), ("7/2", "-3", "4")),
+                  "motion": {"q": [2, -1, 1, 3], "t": ["-3/2", "2", "1/4"]}})
+    cases.append({"stream": "corpus", "shape": "asym", "symbols": ["X", "N", "H", "F", "X", "Cl"], "real": [True, True, True, True, False, True],
+                  "masses": [0.0, 14.00307400443, 2.01410177812, 18.99840316273, 0.0, 36.965902602],
+                  "geom": z((-4, "5/2", 3), ("1/5", "-1/10", "3/10"), ("9/5", "1/2", "-2/5"), ("-3/5", "11/5", "4/5"), (3, 3, "-7/2"), ("-2/5", "-13/5", "-11/10")),
+                  "extra": {"fragments": [[0], [1, 2, 3, 4, 5]], "fragment_charges": [0.0, 0.0]},
+                  "motion": {"q": [1, 3, -2, 1], "t": ["2", "-1/2", "-3/4"]}})
+    # a flush-zone Cl5 with a tiny gap between two moments (coordinates reproduced to 5e-4 only): the second orientation carries the
+    # sign-deciding atom (1.5e-8 off the plane, stored as 0.0) through zero and negates the column (was a false alarm: screening seed 53)
+    cases.append({'symbols': ['Cl', 'Cl', 'Cl', 'Cl', 'Cl'], 'geom': [['395833351111/500000000000', '3291666648889/500000000000', '-733333271111/1000000000000'], ['-2541666631111/1000000000000', '916666631111/1000000000000', '-516666651111/250000000000'], ['249368669091/500000000000', '697979805091/200000000000', '-4905050567273/1000000000000'], ['-4026515187071/1000000000000', '2893939411717/500000000000', '-1006060668283/1000000000000'], ['451388888889/500000000000', '986111111111/500000000000', '1711111111111/1000000000000']], 'shape': 'flushzone', 'extra': {'name': 'annotated-953', 'comment': 'carries every optional block', 'identifiers': {'smiles': 'CC', 'pubchem_cid': '764369', 'pubchem_sid': '130', 'inchi': 'InChI=1S/probe42', 'molecule_hash': '34dd00e27c3d78d07e97ee249b96be587850805a', 'molecular_formula': 'X5', 'inchikey': 'PROBEKEY-5587'}, 'extras': {'tag': 0, 'origin': 'c16', 'nested': {'a': [1, 2]}}, 'provenance': {'creator': 'c16-probe', 'version': '1.0', 'routine': 'harness.props.c16'}, 'atom_labels': ['a', 'x', 'x', 'x', 'x'], 'connectivity': [(1, 2, 1.5), (1, 4, 2.0)]}, 'flags': {'fix_com': True, 'fix_orientation': True, 'fix_symmetry': 'c1'}, 'motion': {'q': [0, -2, 4, 2], 't': ['0/1', '-1/1', '19/5']}, 'stream': 'corpus'})
     cases.append({"stream": "corpus", "shape": "atom", "symbols": ["Ne"], "geom": z((1, 2, 3)), "motion": {"q": [1, 0, 1, 0], "t": ["1", "1", "1"]}})
     # history corpus: one structure as four isotopologues (default, HDO-like, 18-O / 13-C / T, explicit masses), one after the other
     cases.append({"stream": "history", "shape": "history", "symbols": ["O", "H", "H", "C", "H"],
@@ -890,7 +949,7 @@ def run_history(steps):
 def correspond(ctx):
     corr = Corr()
     corr.rule = ("molecules of 1-12 atoms with rational coordinates in [-5,5] (denominators 1..10), random isotopes / explicit masses / "
-                 "ghost atoms, frame flags fix_com / fix_orientation (all four combinations) / fix_symmetry, of shapes: generic (asymmetric), planar, nearly planar (out-of-plane offsets 3e-8..1e-6, around the phase threshold), linear, symmetric top, spherical top, diatomic, single atom; each "
+                 "ghost atoms / massless dummy atoms 'X' (Z = 0, mass 0.0; never all atoms), frame flags fix_com / fix_orientation (all four combinations) / fix_symmetry, of shapes: generic (asymmetric), planar, nearly planar (out-of-plane offsets 3e-8..1e-6, around the phase threshold), linear, symmetric top, spherical top, diatomic, single atom; each "
                  "also as a rigidly moved copy (rational rotation from an integer quaternion + translation, one in ten 1e3..1e5 bohr away); geometry handed over flat / (n,3) / Fortran / transposed view / strided window / big-endian / lists; history groups (same symbols + geometry, different masses / ghosts / flags, both orders). A case is non-trivial if it "
                  "has >= 2 atoms; distinct = distinct inputs")
     cases = gen_cases(ctx)
@@ -919,6 +978,8 @@ def correspond(ctx):
             corr.hit("with_ghosts")
         if case.get("mass_numbers") or case.get("masses"):
             corr.hit("with_isotopes_or_masses")
+        if DUMMY in case["symbols"]:
+            corr.hit("with_massless_dummy_atoms")
         fl = case.get("flags") or {}
         corr.hit("flags_com%d_orient%d" % (bool(fl.get("fix_com")), bool(fl.get("fix_orientation"))))
         if fl.get("fix_symmetry"):
@@ -945,6 +1006,8 @@ def correspond(ctx):
             corr.hit("carries_identifiers_provenance_labels_connectivity")
         if (case.get("extra") or {}).get("fragments"):
             corr.hit("carries_fragments")
+        if obs.get("twice_sign_undetermined_axes"):
+            corr.hit("orient_twice_columns_compared_up_to_sign_(sign-deciding_coordinate_within_the_tolerance_of_zero)", obs["twice_sign_undetermined_axes"])
         if obs.get("sign_free_axes"):
             corr.hit("columns_compared_up_to_sign_(phase_decided_by_an_atom_stored_as_zero)", obs["sign_free_axes"])
         if len(case["symbols"]) >= 2:
@@ -969,8 +1032,8 @@ def correspond(ctx):
                         buckets[chk].append((t, case))
                 continue
             buckets[chk].append((term, case))
-    # the model's ZeroDivisionError branch (np.average with weights summing to zero): unreachable for validated molecules (every
-    # mass is positive), reached here through validate=False
+    # the model's ZeroDivisionError branch (np.average with weights summing to zero): for validated molecules reachable only when every
+    # atom is a dummy (not generated), reached here through validate=False
     from qcelemental.models import Molecule
     for k, (masses, geom) in enumerate([([0.0, 0.0], [0, 0, 0, 0, 0, 2.0]), ([1.0, -1.0], [0, 0, 0, 0, 1.5, 2.0]),
                                         ([2.0, -1.0, -1.0], [0, 0, 0, 0, 1.0, 2.0, 1.0, 2.0, -1.0]), ([0.5, 0.25, -0.75], [1, 0, 0, 0, 1, 0, 0, 0, 1.0])]):
